@@ -265,7 +265,9 @@ def claim_list_protocol(cx, res, kf):
                 res.must_be_unsat(pc + [z3.Not(is_dot)], "%s: dot handling entered on another byte" % fname)
                 pk = [e for e in evs if e[0] == "peek_or_null"][0]
                 nb = pk[3]
-                delim = z3.Or(nb == 0, *[nb == c for c in (0x20, 0x09, 0x0A, 0x0C, 0x0D, ord("|"), ord("("), ord(")"), ord('"'))])
+                # every byte that ends a symbol ends the lone dot as well
+                delim = z3.Or(nb == 0, *[nb == c for c in (0x20, 0x09, 0x0A, 0x0C, 0x0D, ord("|"), ord("("), ord(")"), ord('"'),
+                                                            ord("["), ord("]"), ord(";"))])
                 if "expect" in kinds:
                     # dotted tail: needs a previous element, a delimiter after the dot, trivia skipped after the tail,
                     # and the list's own closer
